@@ -973,7 +973,7 @@ fn c14(r: &Runner) {
 
 fn c15(r: &Runner) {
     use k::Op as K;
-    r.set_rule("addmul: accumulator, a, b of independent lengths 0..=10: the full product of A3^len contents for lengths <= 3 (4 thorough) each, run shapes for longer slices; addmul_n for n = 0..=6; word primitives on B64^2 x carry; n x 1 kernels on slices of length 0..=10 x scalars from B64; shifts by EVERY amount 0..=63; cmp on all equal-length pairs. non-trivial = a carry / borrow / overflow leaves the slice, or the accumulator is shorter than the product");
+    r.set_rule("addmul: accumulator, a, b of independent lengths 0..=10: the full product of A3^len contents for lengths <= 3 (4 thorough) each, run shapes for longer slices; addmul_n for n = 0..=6; word primitives on B64^2 x carry; n x 1 kernels on slices of length 0..=10 x scalars from B64; shifts by EVERY amount 0..=63; cmp on all equal-length pairs; the same kernels on run-shaped slices of 24 lengths in 11..=66, cmp there on every pair of differing positions. non-trivial = a carry / borrow / overflow leaves the slice, or the accumulator is shorter than the product");
     let al3: &[u64] = &[0, 1, u64::MAX];
     let short = if r.is_thorough() { 4 } else { 3 };
     // slices by length: full product for short, run shapes for long
@@ -1057,6 +1057,63 @@ fn c15(r: &Runner) {
             l.states(1);
             k::exec(l, 0, K::shift_left_small, &[vu(s), V::n(amt)]);
             k::exec(l, 0, K::shift_right_small, &[vu(s), V::n(amt)]);
+        }
+    });
+    // long slices (beyond the 0..=10 grid): lengths around every multiple of 8 up to 66, where blocked or unrolled
+    // loops change shape. cmp: EVERY pair of positions (i, j) at which the two operands differ, in both orders
+    const LONG: &[usize] = &[11, 12, 13, 15, 16, 17, 18, 19, 20, 23, 24, 25, 31, 32, 33, 34, 35, 47, 48, 49, 63, 64, 65, 66];
+    r.universe("cmp on long slices: all positions (i, j) of two differences, 3 fills", 0, LONG.len(), |li, l| {
+        let n = LONG[li];
+        for fill in [0u64, 1, u64::MAX - 2] {
+            for i in 0..n {
+                for j in 0..n {
+                    let mut a = vec![fill; n];
+                    let mut b = vec![fill; n];
+                    a[i] += 1;
+                    b[j] += 1;
+                    l.states(1);
+                    k::exec(l, 0, K::cmp, &[vu(&a), vu(&b)]);
+                    // a differs upward at i and downward at j
+                    let mut c = vec![fill + 1; n];
+                    c[i] += 1;
+                    c[j] = fill;
+                    k::exec(l, 0, K::cmp, &[vu(&c), vu(&vec![fill + 1; n])]);
+                    k::exec(l, 0, K::cmp, &[vu(&vec![fill + 1; n]), vu(&c)]);
+                }
+            }
+        }
+    });
+    r.universe("carry / n x 1 / shift kernels on long run-shaped slices", 0, LONG.len(), |li, l| {
+        let n = LONG[li];
+        let sl = run_slices(n, &[0, 1, u64::MAX]);
+        let sl: Vec<&Limbs> = sl.iter().step_by((sl.len() / 40).max(1)).collect();
+        for s in &sl {
+            for a in &sl {
+                l.states(1);
+                for c in [0u64, 1] {
+                    k::exec(l, 0, K::adc_n, &[vu(s), vu(a), V::N(c as u128)]);
+                    k::exec(l, 0, K::sbb_n, &[vu(s), vu(a), V::N(c as u128)]);
+                }
+                k::exec(l, 0, K::cmp, &[vu(s), vu(a)]);
+                for w in [1u64, u64::MAX] {
+                    k::exec(l, 0, K::addmul_nx1, &[vu(s), vu(a), V::N(w as u128)]);
+                    k::exec(l, 0, K::submul_nx1, &[vu(s), vu(a), V::N(w as u128)]);
+                }
+                k::exec(l, 0, K::addmul_n, &[vu(s), vu(a), vu(s)]);
+            }
+            for w in [0u64, 1, 2, 1 << 63, u64::MAX] {
+                k::exec(l, 0, K::mul_nx1, &[vu(s), V::N(w as u128)]);
+                k::exec(l, 0, K::add_nx1, &[vu(s), V::N(w as u128)]);
+            }
+            for amt in [0usize, 1, 31, 32, 63] {
+                k::exec(l, 0, K::shift_left_small, &[vu(s), V::n(amt)]);
+                k::exec(l, 0, K::shift_right_small, &[vu(s), V::n(amt)]);
+            }
+            // accumulator shorter / longer than the product
+            for a in sl.iter().take(6) {
+                k::exec(l, 0, K::addmul, &[vu(s), vu(a), vu(&a[..n / 2].to_vec())]);
+                k::exec(l, 0, K::addmul, &[vu(&s[..n / 2].to_vec()), vu(a), vu(s)]);
+            }
         }
     });
     // cmp: full A5 product on equal-length slices up to 4 (6 thorough with A3)
